@@ -18,6 +18,8 @@ Record case := {
   k_labels : list label;            (* the schedule the history corresponds to *)
   k_history : list haction;
   k_gated : bool;                   (* gates were used: the history is not sequential at action granularity *)
+  k_burst : bool;                   (* all calls were released at one instant against a peer that answers every request
+                                       it receives; k_labels is a schedule that explains the outcome *)
   o_results : list ores;            (* per call *)
   o_stream : list resp;             (* what surfaced on the response stream *)
   o_table : nat                     (* entries left in the pending table *)
@@ -103,6 +105,12 @@ Definition check (c : case) : bool :=
           (delivered c ++ o_stream c) &&
   (* the table holds exactly the calls still waiting *)
   Nat.eqb (o_table c) (pending_count c) &&
+  (* a burst: the peer answered every request it received, so every call was refused or completed with a response,
+     and nothing surfaced on the stream *)
+  (if k_burst c
+   then forallb (fun o => match o with OResp _ _ | ORejected => true | _ => false end) (o_results c) &&
+        match o_stream c with [] => true | _ => false end
+   else true) &&
   (* sequential histories behave exactly like the map *)
   (if k_gated c then true
    else let s := spec_run c in
